@@ -52,6 +52,12 @@ def cases(ctx, quick):
     for kind in ("match", "generated", "badresult", "nomatch", "replaceerr"):
         for i, c in enumerate(fr.CONTENT[kind] + ([fr.CRLF_MATCH] if kind == "match" else [])):
             out.append(dict(id="kind-%s-%d" % (kind, i), patch=fr.PATCH, src=c, api_out=None, api_err=None))
+    # comments inside and right next to a rewritten expression that stays on one line, and spanning lines
+    inl = ["package a\n\nfunc f() {\n\tuse(1, ptr(v /* the value */), 2)\n\tuse(ptr( /* lead */ w), 3) // eol\n}\n",
+           "package a\n\nfunc f() {\n\tuse(ptr(v), /* between */ ptr(w))\n\tuse(ptr(\n\t\t// own line\n\t\tv,\n\t))\n}\n"]
+    for i, c in enumerate(inl):
+        out.append(dict(id="inline-cmt-%d" % i, patch="@@\nvar x expression\n@@\n-ptr(x)\n+&x\n", src=c, api_out=None, api_err=None))
+        out.append(dict(id="inline-cmt-same-%d" % i, patch="@@\nvar x expression\n@@\n-ptr(x)\n+ref(x)\n", src=c, api_out=None, api_err=None))
     # a line longer than any line buffer (64 KiB is the default of bufio.Scanner), LF and CRLF
     long_line = "package a\n\nvar s = \"" + "x" * 70000 + "\"\n\nfunc f() {\n\tfoo(1)\n}\n"
     out.append(dict(id="kind-match-longline", patch=fr.PATCH, src=long_line, api_out=None, api_err=None))
